@@ -17,13 +17,14 @@ EXTENDS MC_Loader, Json, IOUtils
 
 Traces == JsonDeserialize(IOEnv.VERIF_CASES)
 
-VARIABLES cid, l, ok, why
-tvars == <<vars, cid, l, ok, why>>
+VARIABLES cid, l, ok, why,
+          wok     \* beyond the listed properties: the deprecation warnings were the specified ones (drift only)
+tvars == <<vars, cid, l, ok, why, wok>>
 
 ToSet(s) == {s[i] : i \in 1..Len(s)}
 Obs(d) == [n \in Names |-> CASE n = "n" -> ToSet(d.n) [] n = "n2" -> ToSet(d.n2) [] n = "o" -> ToSet(d.o)]
 
-TInit == Init /\ cid \in 1..Len(Traces) /\ l = 1 /\ ok = TRUE /\ why = "-"
+TInit == Init /\ cid \in 1..Len(Traces) /\ l = 1 /\ ok = TRUE /\ why = "-" /\ wok = TRUE
 
 Ev == Traces[cid][l]
 Step(e) ==
@@ -52,20 +53,22 @@ Step(e) ==
                 \* beyond the listed properties: the deprecation warnings of this call (recorded only
                 \* when the harness switched them on)
                 warn == e.warnon = 1 => e.warn = LoadWarnings(st, fs, dirs, e.force = 1, enfnew, Overwrite, nreg)
-            IN /\ ok' = (ok /\ c10 /\ c09 /\ eq /\ e.raised = 0 /\ idem /\ frozen /\ scope /\ warn)
+            IN /\ ok' = (ok /\ c10 /\ c09 /\ eq /\ e.raised = 0 /\ idem /\ frozen /\ scope)
+               /\ wok' = (wok /\ warn)
                /\ why' = IF ~ok THEN why
                          ELSE IF e.raised = 1 THEN "load-or-enforce-raised"
                          ELSE IF ~frozen THEN "registered-objects-mutated"
                          ELSE IF ~idem THEN "reload-changed-printed-policy"
                          ELSE IF ~scope THEN "scope-types-not-from-default"
-                         ELSE IF ~warn THEN "deprecation-warnings-differ"
                          ELSE IF ~eq THEN "long-lived-differs-from-fresh"
                          ELSE IF ~c09 THEN "fresh-differs-from-layering"
                          ELSE IF ~c10 THEN "long-lived-differs-from-spec-state"
                          ELSE why
-TNext == l <= Len(Traces[cid]) /\ Step(Ev) /\ l' = l + 1 /\ UNCHANGED cid
+TNext == l <= Len(Traces[cid]) /\ Step(Ev) /\ l' = l + 1 /\ UNCHANGED cid /\ (Ev.op # "load" => UNCHANGED wok)
 TSpec == TInit /\ [][TNext]_tvars
 Conforms == ok
+\* not a property of the list: reported as MODEL-DRIFT note only
+WarnOK == wok
 \* every trace is consumed to its end (an event without an enabled action would stop it)
 Consumed == TRUE
 =============================================================================
